@@ -9,6 +9,10 @@ Every call is also judged on "what was handed in is unchanged by the call" (byte
 the request list and the order list; on the class routes also the tables stored in the result object), and space
 CH repeats / chains extractions on the SAME table objects (function routes) or the SAME algorithm object (class
 routes): every extraction of a chain is judged against the reference computed from the pristine table.
+
+Class routes are also executed on algorithm objects configured with a non-default minimum order of the analysis
+(run parameter ``ordmin`` = 1 .. last column): an order names a column of the pole table whatever ordmin is; ordmin only
+decides which columns can carry the label 'stable' (the designed label table is 0 below ordmin, as a run would leave it).
 """
 import numpy as np
 
@@ -20,12 +24,17 @@ TECHNIQUE = ("bounded-exhaustive enumeration of tagged pole tables x requested f
              "'find_min') x rtol x with/without covariance tables, every call compared with a reference extractor written "
              "from the statement; routes ssi.SSI_mpe, plscf.pLSCF_mpe, SSIcov.mpe, pLSCF.mpe; every call also judged on 'what "
              "was handed in is unchanged'; plus every chain of two (thorough: also three) extractions over a 6-operation "
-             "alphabet executed on the same table objects / the same algorithm object, each judged against the pristine table")
+             "alphabet executed on the same table objects / the same algorithm object, each judged against the pristine table; "
+             "class routes additionally with every non-default ordmin of the algorithm object (1 .. last column), all three kinds of order")
 LEVEL_TEXT = ("small-scope exhaustive: every table of the stated shapes over the stated cell catalogue is extracted from on "
               "every route and the whole returned record is judged; nothing is sampled. Chained space CH: every 2-row x 2-column "
               "find_min-catalogue table x every ordered pair (thorough: also every ordered triple) of the 6 operations "
               "{find_min for (10,20) / (10); int order 0, 1 and order lists [0,1], [1,0] for (10,20)} x 4 routes (SSI_mpe and "
-              "SSIcov.mpe with covariance tables, pLSCF_mpe, pLSCF.mpe), on objects that are kept between the extractions")
+              "SSIcov.mpe with covariance tables, pLSCF_mpe, pLSCF.mpe), on objects that are kept between the extractions. Axis ordmin (class routes): every table of every "
+              "space x every ordmin in 1..last column x class route (SSIcov.mpe, with / without covariance tables rotating with "
+              "table index + ordmin; pLSCF.mpe except for find_min tables) x every request and order of the space's grid, tolerance "
+              "rotating with (table index + ordmin) >> 1; chained space: every chain on an object with ordmin 1, route rotating "
+              "with the table index")
 RULE = ("a case is one pole table, executed over its whole grid of (requested frequencies, order, rtol, route, covariance); "
         "non-trivial = explicit order: for some request a column that is read holds two or more retained poles and the "
         "nearest one is outside the tolerance, or is not the first retained row, or has an equidistant twin; find_min: the "
@@ -50,6 +59,15 @@ ASSUMPTIONS = [
     "tolerance does not decide there; the k-th extraction of chain j on table i uses rtol index ((i + j) >> k) & 1, i.e. all "
     "combinations of the two tolerances (and of the positional / keyword call form bound to them) occur along the chains, "
     "rotating with the table and the chain; the request list and the order list are written anew for every extraction",
+    "axis ordmin (run parameter of the algorithm classes, default 0): an explicit order names the column of the stored pole table "
+    "whatever ordmin is (also an order below ordmin: that column exists and holds retained poles), and order_out reports the orders "
+    "that were read; ordmin only concerns the labels: a run leaves label 0 in the columns below ordmin, so the designed label table "
+    "handed to an object with ordmin = k has its columns < k set to 0 (reference extractor unchanged, applied to that table); "
+    "values 1 .. last column (ordmin <= ordmax); SSIcov objects with ordmin > 0 are created with ordmax = last column",
+    "axis ordmin is crossed with every table, every request and every order of each space on the class routes; the tolerance and "
+    "with / without covariance tables rotate with the table index and ordmin (all four combinations over four consecutive tables); "
+    "pLSCF.mpe(order='find_min') is not repeated with ordmin > 0 (known-finding route, its mpe does not read ordmin); in the chained "
+    "space the route (SSIcov.mpe with covariances / pLSCF.mpe) rotates with the table index",
 ]
 
 NCH = 3
@@ -68,6 +86,8 @@ EL_SUB_T = [0, 3, 1, 4, 6]       # + 19.2
 FSYMS = ["nan", "f1-stable", "f1-unstable", "f2-stable", "spurious-stable"]
 ROUTES = ("SSI_mpe", "SSI_mpe+cov", "SSIcov.mpe", "SSIcov.mpe+cov", "pLSCF_mpe", "pLSCF.mpe")
 KNOWN_KEY = "find_min:pLSCF_mpe:qualifying-column-not-found"
+# a route is written <base>[+cov][@ordmin<k>]: class routes on an algorithm object whose run parameter ordmin is k (default 0)
+OM_TAG = "@ordmin"
 # chained space: operation alphabet (request index, order) for 2-column tables; a chain is a tuple of operations executed one
 # after the other on the same objects
 CH_OPS = [(0, "find_min"), (1, "find_min"), (0, 0), (0, 1), (0, [0, 1]), (0, [1, 0])]
@@ -252,6 +272,66 @@ def routes_for(sp):
     return ROUTES
 
 
+def parse_route(route):
+    """(base, covariance tables handed in, ordmin of the algorithm object, route without the ordmin tag)."""
+    r, _, om = route.partition(OM_TAG)
+    return r.split("+")[0], r.endswith("+cov"), int(om) if om else 0, r
+
+
+def ncols(sp):
+    return sp[2] if sp[0] == "CH" else 3
+
+
+def ordmins(sp):
+    """Non-default values of the algorithm's ordmin: 1 .. last column of the table."""
+    return list(range(1, ncols(sp)))
+
+
+def ordmin_routes(sp, idx):
+    """Class routes with a non-default ordmin executed on table idx (in addition to routes_for): every ordmin x
+    SSIcov.mpe (with covariance tables iff idx + ordmin is even) and pLSCF.mpe (not for find_min tables: known-finding route).
+    Chained space: one route per table and ordmin (SSIcov.mpe+cov iff idx + ordmin is even, else pLSCF.mpe)."""
+    if sp[0] == "FM" and not sp[2]:
+        return ()
+    out = []
+    for om in ordmins(sp):
+        even = (idx + om) % 2 == 0
+        if sp[0] == "CH":
+            out.append(("SSIcov.mpe+cov" if even else "pLSCF.mpe") + f"{OM_TAG}{om}")
+            continue
+        out.append(("SSIcov.mpe+cov" if even else "SSIcov.mpe") + f"{OM_TAG}{om}")
+        if sp[0] != "FM":
+            out.append(f"pLSCF.mpe{OM_TAG}{om}")
+    return tuple(out)
+
+
+def ordmin_rtol(idx, om):
+    """Tolerance index used on table idx by the routes with ordmin = om > 0 (spaces EI, EL, FM)."""
+    return ((idx + om) >> 1) & 1
+
+
+def with_ordmin(T, om):
+    """The table as a run with ordmin = om leaves it: no pole of a column below ordmin is labelled stable."""
+    if not om:
+        return T
+    T = dict(T)
+    T["Lab"] = T["Lab"].copy()
+    T["Lab"][:, :om] = 0
+    return T
+
+
+def table_for(Tcache, sp, idx, seed, family, om):
+    """(table, listing, pristine bytes) for the route family and the ordmin of the algorithm object."""
+    if family not in Tcache:
+        Tcache[family] = build(sp, idx, seed, family if sp[0] in ("FM", "CH") else "ssi")
+    T, listing = Tcache[family]
+    if (family, om) not in Tcache:
+        To = with_ordmin(T, om)
+        Tcache[(family, om)] = (To, table_bytes(To))
+    To, Tb = Tcache[(family, om)]
+    return To, listing, Tb
+
+
 # ---- reference extractor (from the statement) -------------------------------------------------------
 def ref_explicit(T, freqs, cols, rtol):
     """Per requested frequency: list of admissible cells [(r, c)] (empty = nothing may be returned); None if undecidable.
@@ -343,8 +423,7 @@ def _differs(x, ref):
 def call(route, T, freqs, order, rtol, holder=None, Tb=None):
     """Execute one extraction; returns an Out record (or raises what the library raises). o.changed lists what was handed in
     (or is stored in the result object) and is not, after the call, what it was: pristine bytes Tb of table T."""
-    cov = route.endswith("+cov")
-    base = route.split("+")[0]
+    base, cov, om, _ = parse_route(route)
     freqs0, order0 = list(freqs), (list(order) if isinstance(order, list) else order)
     freqs = list(freqs)
     order = list(order) if isinstance(order, list) else order
@@ -371,7 +450,7 @@ def call(route, T, freqs, order, rtol, holder=None, Tb=None):
         from pyoma2.algorithms.ssi import SSIcov
 
         if h.alg is None:
-            h.alg = SSIcov(name="c11", br=2)
+            h.alg = SSIcov(name="c11", br=2, ordmin=om, ordmax=a["Fn"].shape[1] - 1) if om else SSIcov(name="c11", br=2)
             kw = dict(Fn_poles_cov=a["Fc"], Xi_poles_cov=a["Xc"], Phi_poles_cov=a["Pc"]) if cov else {}
             h.alg.result = SSIResult(Fn_poles=a["Fn"], Xi_poles=a["Xi"], Phi_poles=a["Phi"], Lab=a["Lab"], **kw)
         alg = h.alg
@@ -383,7 +462,7 @@ def call(route, T, freqs, order, rtol, holder=None, Tb=None):
         from pyoma2.algorithms.plscf import pLSCF
 
         if h.alg is None:
-            h.alg = pLSCF(name="c11", ordmax=3)
+            h.alg = pLSCF(name="c11", ordmax=3, ordmin=om) if om else pLSCF(name="c11", ordmax=3)
             h.alg.result = pLSCFResult(Fn_poles=a["Fn"], Xi_poles=a["Xi"], Phi_poles=a["Phi"], Lab=a["Lab"])
         alg = h.alg
         _mpe_form(alg, freqs, order, rtol)
@@ -522,12 +601,8 @@ def one_call(t, sp, idx, seed, route, q, order, ri, Tcache, count=True, holder=N
     holder / before: the objects kept from, and the operations [(q, order, ri)] already executed in, the same chain (before=[]
     for the first extraction of a chain; None outside the chained space: fresh objects)."""
     family = "plscf" if route.startswith("pLSCF") else "ssi"
-    if family not in Tcache:
-        Tcache[family] = build(sp, idx, seed, family if sp[0] in ("FM", "CH") else "ssi")
-    T, listing = Tcache[family]
-    if ("bytes", family) not in Tcache:
-        Tcache[("bytes", family)] = table_bytes(T)
-    Tb = Tcache[("bytes", family)]
+    base, cov, om, route_cov = parse_route(route)
+    T, listing, Tb = table_for(Tcache, sp, idx, seed, family, om)
     freqs = REQS[q]
     rtol = RTOLS[ri]
     if order == "pos":
@@ -535,16 +610,20 @@ def one_call(t, sp, idx, seed, route, q, order, ri, Tcache, count=True, holder=N
     kind = kind_of(order)
     case = {"space": list(sp), "index": int(idx), "seed": seed, "route": route, "request": q, "order": order, "rtol": ri,
             "table": listing, "requested": list(freqs)}
-    cov = route.endswith("+cov")
-    full_route, route = route, route.split("+")[0]      # violation classes do not distinguish with / without covariances
+    full_route, route = route, base      # violation classes do not distinguish with / without covariances
     ctx_txt = f"f={list(freqs)} order={order!r} rtol={rtol}{' with covariance tables' if cov else ''}"
     # pre: prefix of the violation class; okey: prefix of the outcome counters
     pre, okey = kind, f"{full_route}:{kind}"
+    if om:
+        case["ordmin"] = om
+        case["labels_handed_in"] = T["Lab"]
+        pre = f"{kind}@ordmin{om}"
+        ctx_txt += f" on an algorithm object with ordmin={om}"
     if before is not None:
         case["executed_before_on_the_same_objects"] = [[b[0], b[1], b[2]] for b in before]
         if before:
             hist = "+".join(kind_of(b[1]) for b in before)
-            pre, okey = f"after-{hist}:{kind}", f"{full_route}:chain:{hist}->{kind}"
+            pre, okey = f"after-{hist}:{pre}", f"{full_route}:chain:{hist}->{kind}"
             ctx_txt = _Lazy(lambda head=ctx_txt: head + (" as extraction no. %d on the same %s, after %s" % (
                 len(before) + 1, "algorithm object" if ".mpe" in route else "table objects",
                 "; ".join(f"f={list(REQS[b[0]])} order={b[1]!r} rtol={RTOLS[b[2]]}" for b in before))))
@@ -625,6 +704,13 @@ def one_call(t, sp, idx, seed, route, q, order, ri, Tcache, count=True, holder=N
         t.outcomes[f"{okey}:" + ("all-found" if nf == len(freqs) else "none-found" if nf == 0 else "some-found")] += 1
         if any(len(c) > 1 for c in cells):
             t.outcomes[f"{okey}:equidistant-either"] += 1
+        if om:
+            # where the columns that had to be (and were) returned from lie relative to the algorithm's ordmin
+            for rel in sorted({"below" if cc[0][1] < om else "at" if cc[0][1] == om else "above" for cc in expected}):
+                t.outcomes[f"{okey}:pole-returned-from-order-{rel}-ordmin"] += 1
+            if nf == 0:
+                for rel in sorted({"below" if c < om else "at" if c == om else "above" for c in cols}):
+                    t.outcomes[f"{okey}:nothing-returned-at-order-{rel}-ordmin"] += 1
         if before and any(T["Lab"][r, c] != 1 for cc in expected for r, c in cc):
             # the corner of the chained space: the pole that must be returned is retained but not labelled stable, i.e. it is not
             # one of the poles an automatic extraction executed before on the same objects was interested in
@@ -636,9 +722,7 @@ def one_chain(t, sp, idx, seed, route, ops, Tcache, count=True):
     """Execute the operations [(q, order, ri)] one after the other on the same objects; every extraction is judged against the
     pristine table. The first one is an extraction on fresh objects (judged; its outcomes are not counted again)."""
     family = "plscf" if route.startswith("pLSCF") else "ssi"
-    if family not in Tcache:
-        Tcache[family] = build(sp, idx, seed, family)
-    holder = Holder(Tcache[family][0])
+    holder = Holder(table_for(Tcache, sp, idx, seed, family, parse_route(route)[2])[0])
     nt = False
     for k, (q, order, ri) in enumerate(ops):
         nt = one_call(t, sp, idx, seed, route, q, order, ri, Tcache, count and k > 0, holder, list(ops[:k])) or nt
@@ -678,11 +762,21 @@ def work(item):
                 continue
             for q, order, ri in g:
                 nt = one_call(t, sp, idx, seed, route, q, order, ri, cache) or nt
+        # axis ordmin: class routes on an algorithm object with a non-default ordmin
+        for route in ordmin_routes(sp, idx):
+            om = parse_route(route)[2]
+            if sp[0] == "CH":
+                for j, ch in enumerate(g):
+                    nt = one_chain(t, sp, idx, seed, route, chain_ops(idx, j, ch), cache) or nt
+                continue
+            for q, order, ri in g:
+                if ri == ordmin_rtol(idx, om):
+                    nt = one_call(t, sp, idx, seed, route, q, order, ri, cache) or nt
         if nt:
             t.nontrivial.add(code * 10**7 + idx)
         if idx == lo and lo % 4000 < (hi - lo):
             t.sample({"space": list(sp), "index": idx, "table": listing, "Fn": T["Fn"], "Lab": T["Lab"],
-                      "grid_elements_per_route": len(g), "routes": list(routes)})
+                      "grid_elements_per_route": len(g), "routes": list(routes), "routes_with_ordmin": list(ordmin_routes(sp, idx))})
     return t
 
 
